@@ -109,6 +109,31 @@ where
     T: for<'a> AccountSetDecode<'a, ()> + AccountSetValidate<()>,
 {
     let mut s = accs;
+    // forms 4 / 5 / 6: the fixed-size array [T; n] validated with `()`, `((),)`, `[(); n]`; form 7: Rest<T> with `()`
+    macro_rules! arr {
+        ($n:literal) => {{
+            let mut a = <[T; $n] as AccountSetDecode<()>>::decode_accounts(&mut s, (), ctx)?;
+            return match form {
+                4 => a.validate_accounts((), ctx),
+                5 => a.validate_accounts(((),), ctx),
+                _ => a.validate_accounts([(); $n], ctx),
+            };
+        }};
+    }
+    if (4..=6).contains(&form) {
+        match accs.len() {
+            0 => arr!(0),
+            1 => arr!(1),
+            2 => arr!(2),
+            3 => arr!(3),
+            4 => arr!(4),
+            _ => arr!(5),
+        }
+    }
+    if form == 7 {
+        let mut r = <star_frame::account_set::rest::Rest<T> as AccountSetDecode<()>>::decode_accounts(&mut s, (), ctx)?;
+        return r.validate_accounts((), ctx);
+    }
     let mut v = <Vec<T> as AccountSetDecode<usize>>::decode_accounts(&mut s, accs.len(), ctx)?;
     match form {
         0 => v.validate_accounts((), ctx),
